@@ -159,7 +159,7 @@ class Ctx:
         return hs
 
     # -------------------------------------------------------------------- go
-    def go_test(self, pkg, run, env=None, timeout=900, name=None, race=False, extra_args=()):
+    def go_test(self, pkg, run, env=None, timeout=900, name=None, race=False, extra_args=(), overlay=False):
         """Runs a driver in /verif/harness against /repo's working tree. Returns (outdir, result dict or None)."""
         out = os.path.join(self.scratch, name or ("go-" + run.strip("^$")))
         os.makedirs(out, exist_ok=True)
@@ -174,6 +174,9 @@ class Ctx:
         cmd = ["go", "test", "-tags", "verif", "-count=1", "-run", run, "-timeout", "%ds" % timeout]
         if race:
             cmd.append("-race")
+        if overlay:
+            # instrumented internal/sync (lock events), applied at build time: /repo itself is not touched
+            cmd.append("-overlay=" + os.path.join(HARNESS, "overlay", "overlay.json"))
         cmd += list(extra_args) + ["./" + pkg + "/"]
         t = time.time()
         p = subprocess.run(cmd, cwd=HARNESS, env=e, stdout=subprocess.PIPE, stderr=subprocess.STDOUT, text=True)
